@@ -1314,7 +1314,23 @@ def run(tier: str, replay: str | None = None):
 
         # every (single value, leaf condition) pair in both tiers; in the quick tier the match-pattern
         # leaves are paired only with the values they can say something about
-        cases += [((sv,), l) for sv in svals for l in leaves if tier == "thorough" or not pattern_leaf(l) or pattern_relevant(sv)]
+        def collection_sval(sv):
+            b = sv[0]
+            return b[0] == "gen" or (b[0] == "typed" and b[1] in ("list", "dict", "Sequence", "Mapping")) or (b[0] == "known" and b[1][0] in ("list", "dict"))
+
+        def collection_leaf(l):
+            if l[0] == "not":
+                return collection_leaf(l[1])
+            if l[0] in ("isinstance", "typeis"):
+                return any(x in ("list", "dict", "tuple", "object", "str") or (isinstance(x, tuple) and x[-1] in ("tuple", "object")) for x in l[1])
+            return l[0] in ("truthy", "len", "rlen", "pat", "seqis", "seqlen", "mapis", "assertinst", "matchclass", "always")
+
+        def in_quick(sv, l):
+            if pattern_leaf(l) and not pattern_relevant(sv):
+                return False
+            return not collection_sval(sv) or collection_leaf(l)
+
+        cases += [((sv,), l) for sv in svals for l in leaves if tier == "thorough" or in_quick(sv, l)]
         n_rand = 800 if tier == "quick" else 40000
         for _ in range(n_rand):
             cases.append((gen_value(rng, svals), gen_cond(rng, leaves, 2)))
@@ -1324,6 +1340,39 @@ def run(tier: str, replay: str | None = None):
     import time as _time
 
     _t = {"start": _time.time()}
+    # 4a. model: started now in a thread (coqc subprocesses) so that it overlaps the implementation runs
+    model_ok = proof is not None and not any("build failed" in b for b in proof.broken)
+    model_box = {}
+    model_thread = None
+    if model_ok:
+        # the clauses that depend on the object only are evaluated once (UNIV_INFO is a value)
+        ulist = ("Definition UNIV : list obj := " + lib.clist([lit_coq(o) for o in objs]) + ".\n"
+                 "Definition UNIV_INFO := Eval vm_compute in map (fun o => (o, (subclass_bool o, multiple_inheritance o, wf_obj o))) UNIV.\n")
+        terms = []
+        for v, c in cases:
+            terms.append(
+                f"(let V := {value_coq(v)} in let c := {cond_coq(c)} in "
+                "let Np := narrow V c true in let Nn := narrow V c false in "
+                "(Np, Nn, boolab_of V, map (fun (oi : obj * (bool * bool * bool)) => let '(o, (sb, mi, wf)) := oi in "
+                "let h := holds c o in let pn := promotion_negative c o in let ec := enum_class_object o in "
+                "let ss := sequence_pattern_str c o in let ap := assert_promotion c o in pack "
+                "[member o V; match h with Some b => b | None => false end; "
+                "match h with Some _ => true | None => false end; "
+                "member o Np; member o Nn; pn; sb; mi; ec; ss; ap; "
+                "wf && cond_ok c o && negb mi && negb sb && negb pn && negb ec && negb ss && negb ap]) UNIV_INFO))"
+            )
+
+        def _eval_model():
+            try:
+                model_box["model"] = norm(lib.coq_eval(COQ_HEADER + ulist, terms, name="c02", shard=150, jobs=6))
+            except Exception as ex:  # reported after the join
+                model_box["error"] = str(ex)
+
+        import threading
+
+        model_thread = threading.Thread(target=_eval_model)
+        model_thread.start()
+
     # 3. implementation (API + end to end) and oracle facts
     api = []
     boolab = []
@@ -1349,31 +1398,12 @@ def run(tier: str, replay: str | None = None):
         rep.violation({"kind": "broken-correspondence", "correspondence": "Model.narrow vs annotate_code (end to end)", "detail": repr(ex)[-1500:]}, no_failing_input=True)
 
     _t["e2e"] = _time.time()
-    # 4. model
-    model_ok = proof is not None and not any("build failed" in b for b in proof.broken)
-    model = None
-    if model_ok:
-        # the clauses that depend on the object only are evaluated once (UNIV_INFO is a value)
-        ulist = ("Definition UNIV : list obj := " + lib.clist([lit_coq(o) for o in objs]) + ".\n"
-                 "Definition UNIV_INFO := Eval vm_compute in map (fun o => (o, (subclass_bool o, multiple_inheritance o, wf_obj o))) UNIV.\n")
-        terms = []
-        for v, c in cases:
-            terms.append(
-                f"(let V := {value_coq(v)} in let c := {cond_coq(c)} in "
-                "let Np := narrow V c true in let Nn := narrow V c false in "
-                "(Np, Nn, boolab_of V, map (fun (oi : obj * (bool * bool * bool)) => let '(o, (sb, mi, wf)) := oi in "
-                "let h := holds c o in let pn := promotion_negative c o in let ec := enum_class_object o in "
-                "let ss := sequence_pattern_str c o in let ap := assert_promotion c o in pack "
-                "[member o V; match h with Some b => b | None => false end; "
-                "match h with Some _ => true | None => false end; "
-                "member o Np; member o Nn; pn; sb; mi; ec; ss; ap; "
-                "wf && cond_ok c o && negb mi && negb sb && negb pn && negb ec && negb ss && negb ap]) UNIV_INFO))"
-            )
-        try:
-            model = norm(lib.coq_eval(COQ_HEADER + ulist, terms, name="c02", shard=150, jobs=6))
-        except RuntimeError as ex:
-            rep.violation({"kind": "broken-correspondence", "correspondence": "Model.narrow (evaluation failed)", "detail": str(ex)[-1500:]}, no_failing_input=True)
-            model = None
+    # 4. model: join the evaluation thread started above
+    if model_thread is not None:
+        model_thread.join()
+    model = model_box.get("model")
+    if "error" in model_box:
+        rep.violation({"kind": "broken-correspondence", "correspondence": "Model.narrow (evaluation failed)", "detail": model_box["error"][-1500:]}, no_failing_input=True)
 
     _t["model"] = _time.time()
     # 5. verdicts
